@@ -115,7 +115,7 @@ def matches(rec, case, res):
     m = rec.get("match", {})
     if "kind" in m and res.get("kind") != m["kind"]:
         return False
-    if "exc" in m and res.get("exc") != m["exc"]:
+    if "exc" in m and (res.get("exc") not in m["exc"] if isinstance(m["exc"], list) else res.get("exc") != m["exc"]):
         return False
     if "msg_re" in m and not re.search(m["msg_re"], res.get("msg") or ""):
         return False
